@@ -627,7 +627,7 @@ pub fn run(ctx: &Ctx, started: Instant) -> i32 {
         run_list_bed("C07", mine, &mut st, |c| json!({"case": c}), run_case);
         st
     });
-    let per_shard = ctx.tier.pick(1_500u32, 40_000);
+    let per_shard = ctx.tier.pick(8_000u32, 100_000);
     let rnd = par_shards(WORKERS, |shard| {
         let mut st = Stats::default();
         run_proptest_bed("C07", ctx.sub_seed("rand", shard), per_shard, &rand_strategy(Role::ALL[shard % 4]), &mut st, |c| json!({"rand": c}), run_rand);
